@@ -343,8 +343,8 @@ SPECS = {
     ),
     "C20": dict(
         module="Origins.tla", runner="origins", cmp=cmp_c20, nontrivial=nontrivial_c20,
-        cfgs=dict(quick=["Origins_types.cfg", "Origins_table.cfg", "Origins_quick.cfg"],
-                  thorough=["Origins_types.cfg", "Origins_table.cfg", "Origins_quick.cfg",
+        cfgs=dict(quick=["Origins_types.cfg", "Origins_table.cfg", "Origins_pairs.cfg", "Origins_quick.cfg"],
+                  thorough=["Origins_types.cfg", "Origins_table.cfg", "Origins_pairs.cfg", "Origins_quick.cfg",
                             "Origins_chains2.cfg", "Origins_chains4.cfg"]),
         rule="cases with at least one entry placed in some directory of the chain (plus the type classification case); distinct by (chain contents, start level)",
         exhaustive=True,
